@@ -81,9 +81,8 @@ static int idn_calls, idn_argok;
 int __real_idn2_to_ascii_8z (const char *input, char **output, int flags);
 int __wrap_idn2_to_ascii_8z (const char *input, char **output, int flags)
 {
-    (void) flags;
     idn_calls++;
-    if (o_expect == NULL || strcmp (input, o_expect) != 0) {
+    if (o_expect == NULL || strcmp (input, o_expect) != 0 || flags != IDN2_NONTRANSITIONAL) {      /* (the flags the oracle answers were computed with) */
         /* the library hands the IDN library something else than the domain the answer in the case line was computed for:
            that answer says nothing about this argument; give the one the real library gives for it */
         idn_argok = 0;
